@@ -212,17 +212,7 @@ func runSCIONServer(ctx context.Context, log *slog.Logger, mtrcs *scionServerMet
 				log.LogAttrs(ctx, slog.LevelError, "failed to write packet", slog.Any("error", err))
 				continue
 			}
-			_, id, err := udp.ReadTXTimestamp(conn)
-			if err != nil {
-				log.LogAttrs(ctx, slog.LevelError, "failed to read packet tx timestamp",
-					slog.Any("error", err))
-			} else if id != txid {
-				log.LogAttrs(ctx, slog.LevelError, "failed to read packet tx timestamp",
-					slog.Uint64("id", uint64(id)), slog.Uint64("expected", uint64(txid)))
-				txid = id + 1
-			} else {
-				txid++
-			}
+			_, _ = readTXTimestamp(ctx, log, conn, &txid)
 
 			continue
 		}
@@ -309,17 +299,7 @@ func runSCIONServer(ctx context.Context, log *slog.Logger, mtrcs *scionServerMet
 				log.LogAttrs(ctx, slog.LevelError, "failed to write packet", slog.Any("error", err))
 				continue
 			}
-			_, id, err := udp.ReadTXTimestamp(conn)
-			if err != nil {
-				log.LogAttrs(ctx, slog.LevelError, "failed to read packet tx timestamp",
-					slog.Any("error", err))
-			} else if id != txid {
-				log.LogAttrs(ctx, slog.LevelError, "failed to read packet tx timestamp",
-					slog.Uint64("id", uint64(id)), slog.Uint64("expected", uint64(txid)))
-				txid = id + 1
-			} else {
-				txid++
-			}
+			_, _ = readTXTimestamp(ctx, log, conn, &txid)
 
 			mtrcs.pktsForwarded.Inc()
 		} else {
@@ -571,18 +551,9 @@ func runSCIONServer(ctx context.Context, log *slog.Logger, mtrcs *scionServerMet
 				log.LogAttrs(ctx, slog.LevelError, "failed to write packet", slog.Any("error", err))
 				continue
 			}
-			txt1, id, err := udp.ReadTXTimestamp(conn)
-			if err != nil {
+			txt1, ok := readTXTimestamp(ctx, log, conn, &txid)
+			if !ok {
 				txt1 = txt0
-				log.LogAttrs(ctx, slog.LevelError, "failed to read packet tx timestamp",
-					slog.Any("error", err))
-			} else if id != txid {
-				txt1 = txt0
-				log.LogAttrs(ctx, slog.LevelError, "failed to read packet tx timestamp",
-					slog.Uint64("id", uint64(id)), slog.Uint64("expected", uint64(txid)))
-				txid = id + 1
-			} else {
-				txid++
 			}
 			updateTXTimestamp(clientID, rxt, &txt1)
 
